@@ -28,11 +28,11 @@ add("C09", ENGINE_W, "exploration", "refinement against an executable reference 
     "Operation-by-operation refinement of Witness.Update against the decision-table model; thorough enumerates the whole 0..17 cube x root x proof-kind space on fresh witnesses and then samples sizes to 2^63; schedule/fault dimensions are inert by design (weakest fit of the technique, said so in DESIGN.md).",
     BASE_NOTE, "DESIGN.md 5/C09")
 add("C20", ENGINE_W, "exploration", "deterministic simulation: conservation law over recorded histories (sequential, concurrent, faulty)",
-    "A recording metric factory observes seeded histories in sequential, concurrent (seeded scheduler) and fail-stop-fault batches; per run and log the four counters must equal the counts of actual outcomes, so a counter moved before the write or on a wrong path shows up when a Set fails or loses a race. Batches through the adapter (identical requests in flight, storage faults) and through the bastion endpoint. Both tiers end with a free-running run under the race detector (4 x 8 s quick, 4 x 60 s thorough) in which the production Prometheus backend must agree, per label, with the recording factory (sound, not seed-replayable).",
+    "A recording metric factory observes seeded histories in sequential, concurrent (seeded scheduler) and fail-stop-fault batches; per run and log the four counters must equal the counts of actual outcomes, so a counter moved before the write or on a wrong path shows up when a Set fails or loses a race. Batches through the adapter (identical requests in flight, storage faults) and through the bastion endpoint. Both tiers end with a free-running run under the race detector (4 x 8 s quick, 4 x 60 s thorough) in which the production Prometheus backend must agree, per label and in both directions (no label with increments lacks a series), with the recording factory, over up to 48 log IDs per process (sound, not seed-replayable).",
     BASE_NOTE, "DESIGN.md 5/C20, 12.5")
 
 add("C02", ENGINE_W, "exploration", "deterministic simulation: byzantine mutators over signed checkpoints, multi-log shared-key configurations, seeded races; authenticity invariant after every step",
-    "Seeded byzantine submissions (bit flips, truncations, line and signature-block edits, origin rewrites, key-hash forgeries, cross-log replays under shared keys, unknown IDs), sequential and racing a valid submission under the seeded scheduler; one-sided invariant: whatever is stored or returned for an ID is a text the harness signed with that ID's key under that ID's origin, and unknown IDs never reach storage.",
+    "Seeded byzantine submissions (bit flips, truncations, line and signature-block edits, origin rewrites, key-hash forgeries, a text/signature boundary moved on a pair the witness has verified before, cross-log replays under shared keys, different keys under one key name, unknown IDs; the log map is built from YAML as the shipped file is, with and without PublicKeyType lines), sequential and racing a valid submission under the seeded scheduler; one-sided invariant: whatever is stored or returned for an ID is a text the harness signed with that ID's key under that ID's origin, and unknown IDs never reach storage.",
     BASE_NOTE + " Ed25519 unforgeability.", "DESIGN.md 5/C02")
 add("C04", ENGINE_W, "exploration", "deterministic simulation: fake clock jumps between and inside updates, harness note verifier",
     "Seeded first-use/growth/refresh histories with 1..3 witness keys, decorated notes, and clock jumps of 1 ms..30 days between updates and while an update is parked at a storage seam; every accepted result and read is verified with the harness's own note/cosignature code, timestamps against the call window on the fake clock, and the read right after an accepted update must return the same bytes.",
@@ -44,7 +44,7 @@ add("C08", ENGINE_W, "exploration", "deterministic simulation: adversarial prior
     "After arbitrary generated histories (refused forgeries, decorations up to and beyond the note format's line limit, size-0 first checkpoints) an honest log's next step must be accepted at once. Two genuine defects (F1, F2) are listed in known_findings.json by their specific signatures; any other refusal of an honest probe is a VIOLATION.",
     BASE_NOTE, "DESIGN.md 5/C08, 6")
 add("C12", ENGINE_W, "exploration", "deterministic simulation: seeded interleaving of per-log histories vs each history replayed alone (differential), config loader check",
-    "Per-log histories over 2..5 logs (shared keys, cross-log replays) are interleaved by the seeded scheduler at storage-operation granularity and each is replayed alone in a fresh world; verdict sequences and final bytes must agree per log; duplicate-origin configurations must be refused by the real loader. The cross-component ID agreement is exercised by the Main-level, bastion and distributor checks.",
+    "Per-log histories over 2..5 logs (shared keys, cross-log replays) are interleaved by the seeded scheduler at storage-operation granularity and each is replayed alone in a fresh world; verdict sequences and final bytes must agree per log; duplicate-origin configurations must be refused by the real loader and by the real omniwitness.Main started on them in a bubble. The cross-component ID agreement is exercised by the Main-level, bastion and distributor checks.",
     BASE_NOTE, "DESIGN.md 5/C12")
 
 add("C06", ENGINE_CRASH, "fault_enumeration", "deterministic fault enumeration: real SIGKILL of a child process at every database-driver boundary and every numbered SQLite VFS operation (clean and torn), reopen, recovery + behavioural oracle",
@@ -60,7 +60,7 @@ add("C13", ENGINE_NET, "fault_enumeration", "deterministic fault enumeration on 
     BASE_NOTE, "DESIGN.md 5/C13")
 
 add("C15", ENGINE_NET, "exploration", "deterministic simulation: seeded witness answers x seeded network faults (drop, status, redirect, truncation, stall past the client timeout on the fake clock), oracle on the stub distributor's request log",
-    "DistributeOnce over 1..6 logs with every class of witness answer and distributor answer, witness names that need escaping; a PUT must be sent iff the answer is valid, with the unmodified bytes, to the path naming that log's ID and the witness name; every log is attempted; the error reports the failures.",
+    "DistributeOnce over 1..6 logs with every class of witness answer and distributor answer (200, other 2xx, fifteen 4xx/5xx codes incl. 429, transport errors, redirects and loops, truncation, stalls), witness names that need escaping; a PUT must be sent iff the answer is valid, with the unmodified bytes, to the path naming that log's ID and the witness name; every log is attempted; the error reports the failures.",
     BASE_NOTE, "DESIGN.md 5/C15")
 add("C16", ENGINE_W, "exploration", "deterministic simulation: Engine-W histories with reads through the real router and the bundled client over simnet, odd IDs, transport faults, reads racing updates under the seeded scheduler",
     "After every step of seeded histories on both stores, GETs through the registered mux router and through client/http over simnet for known, unknown and syntactically odd IDs, with transport faults on client lookups and, in a concurrent batch, reads racing updates held mid-transaction; 200 + exactly the stored bytes / 404, never another log's checkpoint; client maps to bytes / os.ErrNotExist / error; log list = logs with an accepted update.",
